@@ -531,6 +531,10 @@ def run_mma(case, prob, rec):
         eps_levels = [float(v) for v in re.findall(r"at epsi = ([0-9.eE+-]+)", msg)]
         call["gave_up_epsi_max"] = max(eps_levels) if eps_levels else None
         call["ret"] = [np.array(o, dtype=float) for o in out]
+        if call["gave_up"] and (call["gave_up_epsi_max"] or 0.0) >= 1e-2:
+            # the Newton loop already stalled at the first barrier levels: the returned point is far from optimal (this
+            # call is reported from the record) and every further call would grind through 400-iteration loops again
+            raise _AbortRun()
         return out
 
     def callback():
